@@ -92,6 +92,46 @@ Proof.
   induction l as [|a l IH]; simpl; [tauto|]. intro H. apply ins_sorted_In'. intuition.
 Qed.
 
+
+(* ------------------------------------------------------------------ nothing that agrees with the list is removed *)
+Lemma lc_find_del_same i lc : lc_find i (lc_del i lc) = None.
+Proof.
+  unfold lc_find, lc_del. induction lc as [|[k n] lc IH]; simpl; [reflexivity|].
+  destruct (N.eqb k i) eqn:E; simpl; [exact IH|]. rewrite E. exact IH.
+Qed.
+
+Lemma lc_find_none_keys i lc : lc_find i lc = None -> ~ In i (map fst lc).
+Proof.
+  unfold lc_find. destruct (List.find (fun p => N.eqb (fst p) i) lc) eqn:F; [discriminate|].
+  intros _ I. apply in_map_iff in I. destruct I as [p [E I]].
+  pose proof (find_none _ _ F p I) as Q. simpl in Q. subst i. rewrite N.eqb_refl in Q. discriminate.
+Qed.
+
+Lemma order_by_In_inv ord ids i : In i (order_by ord ids) -> In i ids.
+Proof.
+  unfold order_by. rewrite dedup_In. intro H. apply in_app_or in H. destruct H as [H|H].
+  - apply filter_In in H. apply memb_In. tauto.
+  - apply filter_In in H. tauto.
+Qed.
+
+Lemma sizes_of_In' t i d m : In ((t, i), d) m -> In (i, length d) (sizes_of t m).
+Proof.
+  intro H. unfold sizes_of. apply in_flat_map. exists ((t, i), d). split; [exact H|].
+  simpl. rewrite ft_eqb_refl. left. reflexivity.
+Qed.
+
+Lemma phase2_keeps t ids : forall c c2 ok i,
+  phase2 c t ids = (c2, ok) -> ~ In i ids -> find (t, i) (files c2) = find (t, i) (files c).
+Proof.
+  induction ids as [|j ids IH]; intros c c2 ok i H N; simpl in H; [inv H; reflexivity|].
+  assert (Nj : key_eqb (t, i) (t, j) = false) by (apply key_eqb_neq; intro E; inv E; apply N; left; reflexivity).
+  assert (Ni : ~ In i ids) by (intro I; apply N; right; exact I).
+  destruct (c_remove c t j) as [c'|] eqn:R.
+  - rewrite (IH _ _ _ _ H Ni). eapply c_remove_other; eassumption.
+  - destruct early_exit; [inv H; reflexivity|].
+    destruct (phase2 c t ids) as [c3 o3] eqn:P. inv H. eapply IH; eassumption.
+Qed.
+
 Section NoEarlyExit.
 Hypothesis Hee : early_exit = false.
 
@@ -155,6 +195,65 @@ Proof.
   rewrite (phase2_spec _ _ _ _ _ P2 i L) in F. discriminate.
 Qed.
 
+
+Lemma phase1_keeps t l : forall c lc c1 lc1 ok i d,
+  phase1 c t l lc = (c1, lc1, ok) ->
+  find (t, i) (files c) = Some d ->
+  (forall sz, In (i, sz) l -> sz = length d) ->
+  (forall n, lc_find i lc = Some n -> n = length d) ->
+  find (t, i) (files c1) = Some d /\ (In i (map fst l) \/ lc_find i lc = None -> lc_find i lc1 = None).
+Proof.
+  induction l as [|[j sz] l IH]; intros c lc c1 lc1 ok i d H F HL HC; simpl in H.
+  - inv H. split; [exact F|]. intros [[]|E]; exact E.
+  - assert (HL' : forall sz0, In (i, sz0) l -> sz0 = length d) by (intros; apply HL; right; assumption).
+    destruct (N.eq_dec j i) as [->|N].
+    + (* the entry itself *)
+      destruct (lc_find i lc) as [csz|] eqn:Li.
+      * rewrite (HC _ eq_refl) in H. rewrite (HL sz (or_introl eq_refl)) in H. rewrite Nat.eqb_refl in H.
+        assert (HC' : forall n, lc_find i (lc_del i lc) = Some n -> n = length d)
+          by (intros n E; rewrite lc_find_del_same in E; discriminate).
+        destruct (IH _ _ _ _ _ _ _ H F HL' HC') as [A B]. split; [exact A|].
+        intros _. apply B. right. apply lc_find_del_same.
+      * assert (HC2 : forall n, lc_find i lc = Some n -> n = length d) by (intros n E; rewrite Li in E; discriminate).
+        destruct (IH _ _ _ _ _ _ _ H F HL' HC2) as [A B]. split; [exact A|]. intros _. apply B. right. exact Li.
+    + assert (K : forall c0 o0, find (t, i) (files c0) = Some d ->
+                  phase1 c0 t l (lc_del j lc) = (c1, lc1, o0) ->
+                  find (t, i) (files c1) = Some d /\
+                  (In i (map fst ((j, sz) :: l)) \/ lc_find i lc = None -> lc_find i lc1 = None)).
+      { intros c0 o0 F0 P.
+        assert (HC' : forall n, lc_find i (lc_del j lc) = Some n -> n = length d)
+          by (intros n E; rewrite lc_find_del_other in E by congruence; auto).
+        destruct (IH _ _ _ _ _ _ _ P F0 HL' HC') as [A B]. split; [exact A|].
+        intros [[E|I]|E]; [simpl in E; congruence | apply B; left; exact I |
+                          apply B; right; rewrite lc_find_del_other by congruence; exact E]. }
+      destruct (lc_find j lc) as [csz|] eqn:Lj.
+      * destruct (csz =? sz)%nat; [eapply K; eassumption|].
+        destruct (c_remove c t j) as [c'|] eqn:R.
+        { eapply K; [|eassumption]. rewrite (c_remove_other _ _ _ _ (t, i) R); [exact F|].
+          apply key_eqb_neq. congruence. }
+        rewrite Hee in H. destruct (phase1 c t l (lc_del j lc)) as [[c2 lc2] o2] eqn:P. inv H.
+        eapply K; eassumption.
+      * destruct (IH _ _ _ _ _ _ _ H F HL' HC) as [A B]. split; [exact A|].
+        intros [[E|I]|E]; [simpl in E; congruence | apply B; left; exact I | apply B; right; exact E].
+Qed.
+
+Lemma rnl_keeps c t l ord i d :
+  find (t, i) (files c) = Some d -> In (i, length d) l -> (forall sz, In (i, sz) l -> sz = length d) ->
+  find (t, i) (files (fst (remove_not_in_list c t l ord))) = Some d.
+Proof.
+  intros F I U. unfold remove_not_in_list.
+  destruct (phase1 c t l (c_list c t)) as [[c1 lc1] ok1] eqn:P1.
+  rewrite Hee. simpl.
+  destruct (phase2 c1 t (order_by ord (map fst lc1))) as [c2 ok2] eqn:P2. simpl.
+  assert (HC : forall n, lc_find i (c_list c t) = Some n -> n = length d).
+  { intros n E. rewrite (c_list_find _ _ _ _ F) in E. inv E. reflexivity. }
+  destruct (phase1_keeps _ _ _ _ _ _ _ _ _ P1 F U HC) as [A B].
+  assert (L : lc_find i lc1 = None).
+  { apply B. left. change i with (fst (i, length d)). apply in_map. exact I. }
+  rewrite (phase2_keeps _ _ _ _ _ i P2); [exact A|].
+  intro Q. apply order_by_In_inv in Q. eapply lc_find_none_keys; eassumption.
+Qed.
+
 Section Listing.
 Variable content : key -> bytes.
 
@@ -170,6 +269,16 @@ Proof.
   pose proof (sh_le _ _ _ S _ _ F) as F0.
   destruct (HC _ _ F0) as [E|E]; [|congruence]. subst d.
   destruct (In_find _ _ _ I) as [d'' F'']. rewrite F''. f_equal. eapply BeHonest_find; eassumption.
+Qed.
+
+Lemma list_keeps_good c be t ord i d :
+  BeHonest content be -> find (t, i) (files c) = Some d -> find (t, i) be = Some d ->
+  find (t, i) (files (fst (remove_not_in_list c t (be_list be t) ord))) = Some d.
+Proof.
+  intros HB F Fb. apply rnl_keeps; [exact F | |].
+  - apply sort_ids_In'. apply sizes_of_In'. apply find_In. exact Fb.
+  - intros sz I. apply sort_ids_In in I. apply sizes_of_In in I. destruct I as [d' [I L]].
+    rewrite (HB _ _ I) in L. rewrite (BeHonest_find _ _ _ _ HB Fb). symmetry. exact L.
 Qed.
 End Listing.
 End NoEarlyExit.
